@@ -835,6 +835,10 @@ O(id='SEQUENCE_transcode.grid', props=['C01'], kind='native', harness='harness/g
   functions=['SEQUENCE_encode_der', 'SEQUENCE_decode_ber', 'SEQUENCE_encode_oer', 'SEQUENCE_decode_oer', 'SEQUENCE_encode_uper', 'SEQUENCE_decode_uper', 'SEQUENCE_free'], no_canary=True,
   bound='native grid under ASan/UBSan/LSan: SEQUENCE { a, b OPTIONAL, c } of 2-octet stub members, chain DER -> BER decode -> OER -> decode -> UPER -> decode -> DER for 65536 values of a x b absent/present x 2 values of c', timeout=600)
 
+O(id='OCTET_STRING_encode_xer.canonical', props=['C04', 'C07', 'C19'], entry='h_OCTET_STRING_encode_xer_canonical', harness='harness/h_os_xer_enc.c', units=[SK + 'OCTET_STRING.c'], link=[SK + 'OCTET_STRING.c'],
+  include=['contracts/OCTET_STRING_xer.h'], enforce=['OCTET_STRING_encode_xer'], loops=True, functions=['OCTET_STRING_encode_xer'], fp_restrict=[(r'::cb$', ['out_cb'])], backends=['sat', 'cvc5'], min_props=15, timeout=900,
+  trusted=['output callback: harness stub without side effects, arbitrary return value'])
+
 for _o in OBLIGATIONS:
     if _o.get('enforce') and _o.get('kind') in ('enforce', 'width') and _o.get('tier') == 'quick' and 'C19' not in _o['props']:
         _o['props'] = _o['props'] + ['C19']
